@@ -12,7 +12,7 @@ Bytes6 == IF Full THEN {0, 1, 15, 16, 127, 128, 171, 205, 254, 255} ELSE {0, 1, 
 Nums   == {R(-10), R(0), R(1), R(127), R(128), R(255), R(256), R(300), Q(3, 2), Q(255, 2)}
 Pcts   == {R(-10), R(0), R(50), R(100), R(120), R(33), Q(1, 2)}
 Opac   == {NONE, R(0), Q(1, 2), R(1), Q(3, 2), Q(-1, 2), Q(1, 4)}
-Hues   == {R(0), R(30), R(60), R(120), R(180), R(210), R(240), R(300), R(360), R(390), R(-120), R(765), Q(45, 2)}
+Hues   == {R(0), R(30), R(60), R(120), R(180), R(210), R(240), R(300), R(360), R(390), R(-120), R(-300), R(-350), R(-480), R(765), Q(45, 2)}
 Sats   == {R(0), R(50), R(100), R(120), R(-5), R(25)}
 Lits   == {R(0), R(25), R(50), R(75), R(100), R(130)}
 
@@ -65,7 +65,7 @@ Next ==
      \/ \E p \in Starts : SetN("rgb", p, <<p[1], p[2], p[3], col[4]>>, "alpha_unspecified")   \* packed 0xRRGGBB
      \/ \E p \in Starts : SetN("bgr", p, <<p[1], p[2], p[3], col[4]>>, "alpha_unspecified")   \* packed 0xBBGGRR
      \/ Set("hexrt", 0, col)                                       \* c := Color(c.hex)
-     \/ \E h \in {R(0), R(90), R(200), R(330)} : SetN("hue", h, col, "hsl_write")
+     \/ \E h \in {R(0), R(90), R(200), R(330), R(-300)} : SetN("hue", h, col, "hsl_write")
      \/ \E s \in {Q(1, 4), R(1)} : SetN("saturation", s, col, "hsl_write")
      \/ \E l \in {Q(1, 4), Q(3, 4)} : SetN("lightness", l, col, "hsl_write")
   /\ hslv' = ToHsl(col')
